@@ -25,6 +25,30 @@ Theorem C01_chunking_invariant :
     observe (run parse (Live []) chunks) = observe (run parse (Live []) [concat chunks]).
 Proof. exact chunking_invariant. Qed.
 
+(** DevOutThread.run over schedules of read() results that include empty reads — None (the
+    select() timeout of the uart/tcp/unix transports) and b'' — at arbitrary positions
+    (between frames, inside headers, inside payloads): what is delivered is the specification
+    on the bytes carried, ... *)
+Theorem C01_run_loop_refines_deliver :
+  forall parse (reads : list (option bytes)),
+    observe (run_loop parse (Live []) reads)
+    = Some (dispatch parse (deliver (concat (chunks_of reads)))).
+Proof. exact run_loop_refines_deliver. Qed.
+
+(** ... so an empty read is a no-op: inserting or removing None / b'' reads anywhere changes
+    nothing, and a schedule with empty reads behaves like the chunk list without them. *)
+Theorem C01_empty_reads_noop :
+  forall parse (reads1 reads2 : list (option bytes)),
+    nonempty_data reads1 = nonempty_data reads2 ->
+    observe (run_loop parse (Live []) reads1) = observe (run_loop parse (Live []) reads2).
+Proof. exact empty_reads_noop. Qed.
+
+Theorem C01_run_loop_insert_empties :
+  forall parse (chunks : list bytes) (reads : list (option bytes)),
+    nonempty_data reads = filter (fun b => negb (length b =? 0)) chunks ->
+    observe (run_loop parse (Live []) reads) = observe (run parse (Live []) chunks).
+Proof. exact run_loop_insert_empties. Qed.
+
 (** (2) Self-resynchronisation: frames (0 < payload < 65536 bytes) separated by gaps
     that contain no adjacent AC BE (a gap may end in AC or start with BE) are each
     recognised exactly once, in order, with their payload intact. *)
